@@ -10,3 +10,216 @@ package bbr
 //@ func GetInitialPacketSize
 //@   props C10 C01 C02 C15
 //@   trusted
+
+// ---------------------------------------------------------------------------
+// C12 (in part): the ring buffer and the packet-number-indexed queue never reach one of
+// their panics, for every sequence of operations (object invariant induction).
+//@ spec func rlen(r) = ite(r.full, len(r.ring), ite(r.tailPos >= r.headPos, r.tailPos - r.headPos, r.tailPos - r.headPos + len(r.ring)))
+//@ spec func rwf(r) = (len(r.ring) == 0 && r.headPos == 0 && r.tailPos == 0 && !r.full) || (0 <= r.headPos && r.headPos < len(r.ring) && 0 <= r.tailPos && r.tailPos < len(r.ring) && (r.full ==> r.headPos == r.tailPos))
+//@ objinv RingBuffer: rwf(this)
+
+//@ func (*RingBuffer).Len
+//@   props C12
+//@   nonil
+//@   ensures ret == rlen(r) && 0 <= ret && ret <= len(r.ring)
+//@ func (*RingBuffer).Empty
+//@   props C12
+//@   nonil
+//@   ensures ret == (rlen(r) == 0)
+//@ func (*RingBuffer).grow
+//@   props C12
+//@   nonil
+//@   requires r.full || len(r.ring) == 0
+//@   ensures rlen(r) == old(rlen(r)) && !r.full && len(r.ring) == max(1, 2 * old(len(r.ring))) && r.headPos == 0 && r.tailPos == old(len(r.ring)) && fresh(r.ring)
+//@   modifies r.ring, r.headPos, r.tailPos, r.full
+//@ func (*RingBuffer).PushBack
+//@   props C12
+//@   nonil
+//@   ensures rlen(r) == old(rlen(r)) + 1 && (r.ring == old(r.ring) || fresh(r.ring))
+//@   modifies r.ring, r.headPos, r.tailPos, r.full, elems(r.ring)
+//@ func (*RingBuffer).PopFront
+//@   props C12
+//@   nonil
+//@   requires rlen(r) > 0
+//@   ensures rlen(r) == old(rlen(r)) - 1 && len(r.ring) == old(len(r.ring))
+//@   modifies r.headPos, r.full, elems(r.ring)
+//@ func (*RingBuffer).Offset
+//@   props C12
+//@   nonil
+//@   requires 0 <= index && index < rlen(r)
+//@   ensures ret != nil
+//@ func (*RingBuffer).Front
+//@   props C12
+//@   nonil
+//@   requires rlen(r) > 0
+//@   ensures ret != nil
+//@ func (*RingBuffer).Back
+//@   props C12
+//@   nonil
+//@   requires rlen(r) > 0
+//@   ensures ret != nil
+//@ func (*RingBuffer).Clear
+//@   props C12
+//@   nonil
+//@   ensures rlen(r) == 0 && len(r.ring) == old(len(r.ring))
+//@   modifies r.headPos, r.tailPos, r.full, elems(r.ring)
+//@ func (*RingBuffer).Init
+//@   props C12
+//@   nonil
+//@   requires size >= 0 && r.headPos == 0 && r.tailPos == 0 && !r.full
+//@   ensures len(r.ring) == size && rlen(r) == 0
+//@   modifies r.ring
+
+// The queue over the ring buffer. Invariant: the ring is well formed and the first packet
+// number is -1 (invalid) or such that first + slots stays in range. Assumption about QUIC:
+// packet numbers handed in are -1 or in [0, 2^62).
+//@ spec func qinv(p) = rwf(p.entries) && p.firstPacket >= -1 && p.firstPacket + rlen(p.entries) <= (1<<62) + (1<<41)
+//@ objinv packetNumberIndexedQueue: qinv(this)
+//@ fnfield Remove.f(e)
+
+//@ func newPacketNumberIndexedQueue
+//@   props C12
+//@   requires size >= 0
+//@   ensures ret != nil && fresh(ret) && rlen(ret.entries) == 0 && ret.firstPacket == -1 && ret.numberOfPresentEntries == 0
+//@ func (*packetNumberIndexedQueue).IsEmpty
+//@   props C12
+//@   nonil
+//@   ensures ret == (p.numberOfPresentEntries == 0)
+//@ func (*packetNumberIndexedQueue).NumberOfPresentEntries
+//@   props C12
+//@   nonil
+//@   ensures ret == p.numberOfPresentEntries
+//@ func (*packetNumberIndexedQueue).EntrySlotsUsed
+//@   props C12
+//@   nonil
+//@   ensures ret == rlen(p.entries)
+//@ func (*packetNumberIndexedQueue).FirstPacket
+//@   props C12
+//@   nonil
+//@   ensures packetNumber == p.firstPacket
+//@ func (*packetNumberIndexedQueue).LastPacket
+//@   props C12
+//@   nonil
+//@   ensures p.numberOfPresentEntries == 0 ==> packetNumber == -1
+//@   ensures p.numberOfPresentEntries != 0 ==> packetNumber == p.firstPacket + rlen(p.entries) - 1
+//@ func (*packetNumberIndexedQueue).getEntryWraper
+//@   props C12
+//@   nonil
+//@   requires packetNumber >= -1 && packetNumber < 1<<62
+//@ func (*packetNumberIndexedQueue).GetEntry
+//@   props C12
+//@   nonil
+//@   requires packetNumber >= -1 && packetNumber < 1<<62
+//@ func (*packetNumberIndexedQueue).clearup
+//@   props C12
+//@   nonil
+//@   ensures rlen(p.entries) <= old(rlen(p.entries)) && (rlen(p.entries) == 0 ==> p.firstPacket == -1)
+//@   modifies p.firstPacket, p.entries.headPos, p.entries.full, elems(p.entries.ring)
+//@   loop 0
+//@     invariant qinv(p) && p.entries.ring == old(p.entries.ring) && rlen(p.entries) <= old(rlen(p.entries))
+//@ func (*packetNumberIndexedQueue).Remove
+//@   props C12
+//@   nonil
+//@   requires packetNumber >= -1 && packetNumber < 1<<62
+//@   modifies any
+//@ func (*packetNumberIndexedQueue).RemoveUpTo
+//@   props C12
+//@   nonil
+//@   requires packetNumber >= -1 && packetNumber < 1<<62
+//@   ensures rlen(p.entries) <= old(rlen(p.entries))
+//@   modifies p.firstPacket, p.numberOfPresentEntries, p.entries.headPos, p.entries.full, elems(p.entries.ring)
+//@   loop 0
+//@     invariant qinv(p) && p.entries.ring == old(p.entries.ring) && rlen(p.entries) <= old(rlen(p.entries))
+//@ func (*packetNumberIndexedQueue).Emplace
+//@   props C12
+//@   nonil
+//@   requires packetNumber >= -1 && packetNumber < 1<<62
+//@   ensures ret ==> rlen(p.entries) >= 1
+//@   modifies p.numberOfPresentEntries, p.firstPacket, p.entries.ring, p.entries.headPos, p.entries.tailPos, p.entries.full, elems(p.entries.ring)
+//@   loop 0
+//@     invariant (p.entries.ring == old(p.entries.ring) || fresh(p.entries.ring))
+//@     invariant rwf(p.entries) && 0 <= i && i <= gap && rlen(p.entries) == old(rlen(p.entries)) + i && p.firstPacket == old(p.firstPacket) && p.numberOfPresentEntries == old(p.numberOfPresentEntries)
+
+// ---------------------------------------------------------------------------
+// C12 (in part): the clamps. After every window computation outside PROBE_RTT the congestion
+// window lies between the minimum (four datagrams) and the maximum window; the recovery
+// window is at least the minimum; the bandwidth handed to the pacer is at least 64 KB/s.
+// The float expressions feeding these clamps are arbitrary as far as the proofs go.
+// Helper summaries: the getters below read the sender only.
+//@ func (*bandwidthSampler).MaxAckHeight
+//@   props C12
+//@   trusted
+//@ func (*bandwidthSampler).TotalBytesAcked
+//@   props C12
+//@   nonil
+//@   ensures ret == b.totalBytesAcked
+//@ func (*bbrSender).getTargetCongestionWindow
+//@   props C12
+//@   trusted
+//@   ensures ret >= b.minCongestionWindow
+//@ func (*bbrSender).PacingRate
+//@   props C12
+//@   trusted
+//@ func minCongestionWindowForMaxDatagramSize
+//@   props C12
+//@   nowrap
+//@   requires maxDatagramSize >= 0 && maxDatagramSize <= 1<<40
+//@   ensures ret == 4 * maxDatagramSize
+//@ func (*bbrSender).probeRttCongestionWindow
+//@   props C12
+//@   nonil
+//@   ensures ret == b.minCongestionWindow
+
+//@ func (*bbrSender).calculateCongestionWindow
+//@   props C12
+//@   nonil
+//@   requires b.sampler != nil && b.minCongestionWindow <= b.maxCongestionWindow
+//@   ensures b.mode != 3 ==> b.minCongestionWindow <= b.congestionWindow && b.congestionWindow <= b.maxCongestionWindow
+//@   ensures b.mode == 3 ==> b.congestionWindow == old(b.congestionWindow)
+//@   modifies b.congestionWindow
+//@ func (*bbrSender).calculateRecoveryWindow
+//@   props C12
+//@   nonil
+//@   ensures b.recoveryState != 0 ==> b.recoveryWindow >= b.minCongestionWindow
+//@   ensures b.recoveryState == 0 ==> b.recoveryWindow == old(b.recoveryWindow)
+//@   modifies b.recoveryWindow
+//@ func (*bbrSender).bandwidthForPacer
+//@   props C12
+//@   nonil
+//@   ensures ret >= 65536
+//@ func (*bbrSender).GetCongestionWindow
+//@   props C12
+//@   nonil
+//@   ensures b.mode == 3 ==> ret == b.minCongestionWindow
+//@   ensures b.mode != 3 && b.recoveryState == 0 ==> ret == b.congestionWindow
+//@   ensures b.mode != 3 && b.recoveryState != 0 ==> ret == min(b.congestionWindow, b.recoveryWindow)
+
+// growing the datagram size keeps the window bounds ordered (assumption about QUIC: the size
+// never shrinks - the code panics otherwise - and stays within 1..65535; windows below 2^40)
+//@ func scaleByteWindowForDatagramSize
+//@   props C12
+//@   requires window >= 0 && window <= 1<<40 && oldMaxDatagramSize >= 1 && newMaxDatagramSize >= oldMaxDatagramSize && newMaxDatagramSize <= 65535
+//@   ensures ret >= window && (window >= 4 * oldMaxDatagramSize ==> ret >= 4 * newMaxDatagramSize)
+//@   ensures ret == ite(oldMaxDatagramSize == newMaxDatagramSize, window, window * newMaxDatagramSize / oldMaxDatagramSize)
+//@ spec func wsmall(w) = 0 <= w && w <= 1<<40
+//@ spec func wpre(b) = b.maxDatagramSize >= 1 && wsmall(b.initialCongestionWindow) && wsmall(b.maxCongestionWindow) && wsmall(b.cwndToCalculateMinPacingRate) && wsmall(b.maxCongestionWindowWithNetworkParametersAdjusted) && b.maxCongestionWindow >= 4 * b.maxDatagramSize && b.initialCongestionWindow >= 4 * b.maxDatagramSize && b.initialCongestionWindow <= b.maxCongestionWindow
+//@ func (*bbrSender).rescalePacketSizedWindows
+//@   props C12
+//@   nonil
+//@   requires wpre(b) && maxDatagramSize >= b.maxDatagramSize && maxDatagramSize <= 65535
+//@   ensures b.maxDatagramSize == maxDatagramSize && b.minCongestionWindow == 4 * maxDatagramSize && b.maxCongestionWindow >= b.minCongestionWindow
+//@   ensures b.maxCongestionWindow >= old(b.maxCongestionWindow) && b.initialCongestionWindow >= old(b.initialCongestionWindow)
+//@   ensures b.initialCongestionWindow >= b.minCongestionWindow && b.initialCongestionWindow <= b.maxCongestionWindow
+//@   modifies b.maxDatagramSize, b.initialCongestionWindow, b.maxCongestionWindow, b.minCongestionWindow, b.cwndToCalculateMinPacingRate, b.maxCongestionWindowWithNetworkParametersAdjusted
+//@ func (*bbrSender).debugPrint
+//@   props C12
+//@   trusted
+//@ func (*bbrSender).SetMaxDatagramSize
+//@   props C12
+//@   nonil
+//@   requires wpre(b) && s >= b.maxDatagramSize && s <= 65535 && b.pacer != nil
+//@   ensures b.maxDatagramSize == s && b.minCongestionWindow == 4 * s && b.minCongestionWindow <= b.maxCongestionWindow
+//@   ensures b.minCongestionWindow <= b.congestionWindow && b.congestionWindow <= b.maxCongestionWindow
+//@   ensures b.minCongestionWindow <= b.recoveryWindow && b.recoveryWindow <= b.maxCongestionWindow
+//@   ensures b.pacer.maxDatagramSize == s
+//@   modifies b.maxDatagramSize, b.initialCongestionWindow, b.maxCongestionWindow, b.minCongestionWindow, b.cwndToCalculateMinPacingRate, b.maxCongestionWindowWithNetworkParametersAdjusted, b.congestionWindow, b.recoveryWindow, b.pacer.maxDatagramSize
